@@ -124,6 +124,13 @@ var properties = map[string]Prop{
 		Rule:        "decode side: every byte string of length <= 2, and every string of length 3-5 (6 thorough) over the boundary alphabet {00,01,04,7f,80,fc,ff}, through every entry point (envelope decoder with and without a user codec, ReadMessage, ReadVersionVector, each of the 30 registered readers); for every distinct valid encoding of the C12 corpus (three routes: registered writer, WriteMessage, envelope) every truncation and at every offset the substitutions {00,01,7f,80,ff,b^01,b^80,b+1,b-1} (thorough: all 255) and every 4-byte window overwritten with {ffffffff, fffffffc, 80000000, 7fffffff, 00010000, 0000ffff}; Reader.Read of every truncation of 12 encoded shapes into pre-filled targets; each case guarded for panic and for allocation > 1 MiB + 4 KiB x input length (runtime/metrics), the worker runs under an address-space limit and a fatal crash is attributed to the case in flight; encode side: 19 unsupported / exotic Go values through Write and WriteFrom, 9 nil / non-pointer / unknown messages through the envelope encoder and WriteMessage with and without a codec; every case is distinct",
 		Assumptions: []string{"non-termination is only detected through the overall deadline", "corruptions are single-byte; multi-byte corruptions are covered only for inputs of length <= 2"},
 	},
+	"C11": {
+		Parts:       []Part{{Harness: "c11"}},
+		Level:       "model_checking",
+		QuickBudget: 250, ThoroughBudget: 2400,
+		Rule: "two real Systems with remoting enabled on an in-memory network: bursts of 1-4 numbered messages with payload {0, 1, 200, 4000, 4090, 4096 (bufio boundary), 65536} bytes, two concurrent senders, both directions at once, Ask/Reply, and a 12 s idle gap (beyond the handshake deadlines) between bursts; reads return everything available (maximal coalescing, default) or one of {1, 3, 4, 5, half, all-but-one} bytes as environment choices at every Read (handshake included); every schedule up to the delay/deviation bound with switch points at messages, sends, network operations and mailbox elections; oracle: exactly once, intact, per-sender order, Sender() == original sender, every Ask gets its own reply, no decode-failed event; distinct_nontrivial = distinct delivery logs per scenario",
+		Assumptions: append([]string{"the network is the in-memory vnet shim (net.Dial / ListenTCP / Conn with virtual deadlines); TLS listeners are not modelled", coarseAssumption}, schedAssumptions...),
+	},
 	"C05": {
 		Parts:       []Part{{Harness: "c05"}},
 		Level:       "model_checking",
